@@ -16,6 +16,10 @@ with common.Lock(os.path.join(common.COQ, ".lock")):
     common.ensure_makefile()
 PY
 cd coq
-timeout 3400 make -j16 2>&1 | tail -40
-test "${PIPESTATUS[0]}" = 0
+# -k: a file that fails to compile only breaks the checks that depend on it (each check
+# re-makes its own targets and reports a broken obligation); setup itself fails only when
+# the shared library does not build.
+timeout 3400 make -k -j16 > .setup.log 2>&1 || true
+grep -E "^(File|Error)" .setup.log | head -20 || true
+test -f Lib/Bytes.vo
 echo "setup ok"
